@@ -16,11 +16,23 @@
      - a QoS 2 packet id whose PUBLISH was new to the broker is in the stored set after a cut
        anywhere in any continuation by other clients, and a broker restarted on such a store
        answers the retransmitted PUBLISH of the reconnected client with PUBREC and nothing else
-   Not proved (checked by the differential run only): the queue clause (every QoS>0 message
-   whose publisher was acknowledged and whose subscriber was not is redelivered). *)
-From Coq Require Import List NArith.
+     - unack store (Proofs/CrashQueueP.v, part A): every operation is one command, so the store left
+       by any prefix of the journal is the store after a whole number of operations, and the
+       reloaded id set is the abstract set after them
+     - session queue (Proofs/CrashQueueP.v, part B), for the redis queue model as repaired: the list
+       reloaded after any prefix is the list after the last completed operation with a prefix of
+       the commands of the operation in progress applied; run level: every reloaded element is a
+       supplied (Add / Replace) element up to packet id and expiry, the list has at most one slot
+       per RPUSH and only Add pushes; per operation in progress: the exact intermediate lists of
+       Add, ReadInflight and Read, no element missing but the reported victims, the in-flight
+       entries in front of the queued ones in their order
+   Not proved at run level: clauses (a) and (c) of the queue for arbitrary histories - they hold per
+   operation on a consistent store; the induction would need that consistency (partition, cursor,
+   length, read cache coherent with the list, distinct packet ids) is kept by every completed
+   operation under the caller's discipline (see the end of this file). *)
+From Coq Require Import List NArith ZArith.
 Import ListNotations.
-From GM Require Import Base.Topic Model.SubTrie Model.Redis Model.RQueue Model.Crash Proofs.CrashP.
+From GM Require Import Base.Topic Base.Msg Model.SubTrie Model.Queue Model.Redis Model.RQueue Model.Crash Proofs.CrashP Proofs.CrashQueueP.
 
 (* start-up never fails on an intermediate store state *)
 Theorem C09_startup_any_prefix :
@@ -200,3 +212,193 @@ Example C09_nonvacuous :
    | None => ([], [])
    end) = ([C1; C2], [(C2, sub_a)]).
 Proof. vm_compute. split; reflexivity. Qed.
+
+(* ==================================================================================== *)
+(* C09, unack clause.  For ANY history of operations on the unack store of a client (16 bit packet
+   ids) and ANY prefix of its command journal: the prefix is the journal of the first j operations
+   for some j (an operation is a single command: a cut never falls inside one), and the id set a
+   restarted broker reloads is the abstract set after those j operations *)
+Theorem C09_unack_any_prefix :
+  forall (fx : fixes) (c : cid) (ops : list ruop) (s : rstore) (cache : list N) (k : nat),
+    ustore_ok c s -> ucache_ok c s cache -> Forall ruop_u16 ops ->
+    exists j, (j <= length ops)%nat /\
+      firstn k (snd (ru_run fx c s cache ops)) = snd (ru_run fx c s cache (firstn j ops)) /\
+      seteq16 (stored_unack c (exec_all s (firstn k (snd (ru_run fx c s cache ops)))))
+              (fold_left ua_spec (firstn j ops) (stored_unack c s)).
+Proof. exact unack_any_prefix. Qed.
+Print Assumptions C09_unack_any_prefix.
+
+(* ... from the empty store *)
+Theorem C09_unack_any_prefix_fresh :
+  forall (fx : fixes) (c : cid) (ops : list ruop) (k : nat),
+    Forall ruop_u16 ops ->
+    exists j, (j <= length ops)%nat /\
+      firstn k (snd (ru_run fx c [] [] ops)) = snd (ru_run fx c [] [] (firstn j ops)) /\
+      seteq16 (stored_unack c (exec_all [] (firstn k (snd (ru_run fx c [] [] ops))))) (fold_left ua_spec (firstn j ops) []).
+Proof. exact unack_any_prefix_fresh. Qed.
+Print Assumptions C09_unack_any_prefix_fresh.
+
+Example C09_unack_example :
+  length (snd (ru_run cur_code [99%N] [] [] xu_ops)) = 4%nat /\
+  map (fun k => stored_unack [99%N] (exec_all [] (firstn k (snd (ru_run cur_code [99%N] [] [] xu_ops))))) [0; 1; 2; 3; 4]%nat
+  = [[]; []; [5%N]; [5%N; 7%N]; [7%N]].
+Proof. exact unack_example. Qed.
+
+(* ==================================================================================== *)
+(* C09, queue clause.  `rq_journal` is the command journal of the queue model (Model/RQueue.v) *)
+Theorem C09_queue_journal_is_model_journal :
+  forall (ops : list rqop) (s : rstore) (q : rq), snd (rq_run s q ops) = rq_journal s q ops.
+Proof. exact rq_journal_run. Qed.
+Print Assumptions C09_queue_journal_is_model_journal.
+
+(* after ANY prefix of the journal of ANY history: the stored list (what LRANGE returns to the restarted
+   broker) is the list after the last completed operation with a prefix of the commands of the next
+   operation applied to it *)
+Theorem C09_queue_cut_decomposition :
+  forall (ops : list rqop) (s : rstore) (q : rq) (k : nat),
+    qstore_ok (rq_key q) s ->
+    exists s' q' rest k',
+      reach s q ops s' q' rest /\ rq_key q' = rq_key q /\ qstore_ok (rq_key q) s' /\
+      lview (rq_key q) (exec_all s (firstn k (rq_journal s q ops))) =
+        match rest with
+        | [] => lview (rq_key q) s'
+        | o :: _ => lexec_all (lview (rq_key q) s') (firstn k' (r_cmds (rq_step s' q' o)))
+        end.
+Proof. exact queue_cut_decomposition. Qed.
+Print Assumptions C09_queue_cut_decomposition.
+
+(* which operations can be cut at all: Remove, Replace, Init, Close and the restart issue at most one command *)
+Theorem C09_queue_atomic_operations :
+  forall (s : rstore) (q : rq) (o : rqop),
+    match o with
+    | ROp (OAdd _ _) | ROp (ORead _ _) | ROp (OReadInflight _ _) => True
+    | _ => (length (r_cmds (rq_step s q o)) <= 1)%nat
+    end.
+Proof. exact atomic_ops. Qed.
+Print Assumptions C09_queue_atomic_operations.
+
+(* Add: nothing (the newcomer is the reported victim), RPUSH of the newcomer, or LREM of one victim - an
+   element of the stored list, the one reported dropped - followed by that RPUSH *)
+Theorem C09_queue_add_commands :
+  forall (now : N) (e : elem) (s : rstore) (q : rq),
+    let x := rq_add now e s q in
+    (r_cmds x = [] /\ add_reports (r_out x) e) \/
+    (r_cmds x = [CRPush (rq_key q) (BElem e)] /\ r_out x = RAdd [EvQueue 1]) \/
+    (exists d, r_cmds x = [CLRem (rq_key q) (BElem d); CRPush (rq_key q) (BElem e)] /\
+               add_reports (r_out x) d /\ In (BElem d) (lview (rq_key q) s)).
+Proof. exact add_shape. Qed.
+Print Assumptions C09_queue_add_commands.
+
+(* (a) Add in progress: the list is the old one, possibly without the single reported victim, possibly with
+   the newcomer appended *)
+Theorem C09_queue_add_in_progress :
+  forall (now : N) (e : elem) (s : rstore) (q : rq) (k' : nat),
+    let L := lview (rq_key q) s in
+    let x := rq_add now e s q in
+    let L' := lexec_all L (firstn k' (r_cmds x)) in
+    L' = L \/ L' = L ++ [BElem e] \/
+    exists d, add_reports (r_out x) d /\ In (BElem d) L /\
+              (L' = remove_first (BElem d) L \/ L' = remove_first (BElem d) L ++ [BElem e]).
+Proof. exact add_cut_lists. Qed.
+Print Assumptions C09_queue_add_in_progress.
+
+(* (a, c) ReadInflight in progress: same elements, same order, some in-flight expiries rewritten *)
+Theorem C09_queue_readinflight_in_progress :
+  forall (now : N) (n : nat) (s : rstore) (q : rq) (E : list elem) (k' : nat),
+    qstore_ok (rq_key q) s -> lview (rq_key q) s = map BElem E -> (0 <= rq_cur q)%Z ->
+    exists E', lexec_all (lview (rq_key q) s) (firstn k' (r_cmds (rq_read_inflight now n s q))) = map BElem E' /\
+               Forall2 upto_expiry E' E.
+Proof. exact readinflight_cut. Qed.
+Print Assumptions C09_queue_readinflight_in_progress.
+
+(* (a, c) Read in progress on a consistent store: a prefix of the window was processed (`rd`): each of its
+   elements was removed for a documented reason (D) or rewritten into an in-flight entry appended, in
+   order, to the in-flight entries; the rest of the list is untouched *)
+Theorem C09_queue_read_in_progress :
+  forall (now : N) (pids : list N) (s : rstore) (q : rq) (infl qd : list elem) (k' : nat),
+    qstore_ok (rq_key q) s -> lview (rq_key q) s = map BElem (infl ++ qd) ->
+    Forall (fun e => e_id e <> 0%N) infl -> Forall (fun e => e_id e = 0%N) qd ->
+    rq_cur q = Z.of_nat (length infl) -> Forall (fun p => p <> 0%N) pids ->
+    exists D A' l',
+      rd infl (firstn (length pids) qd) D A' l' /\ Forall (removable now (rq_limit q) (rq_v5 q)) D /\
+      lexec_all (lview (rq_key q) s) (firstn k' (r_cmds (rq_read now pids s q))) =
+        map BElem (A' ++ l' ++ skipn (length pids) qd).
+Proof. exact read_cut. Qed.
+Print Assumptions C09_queue_read_in_progress.
+
+Theorem C09_queue_read_in_progress_order :
+  forall (A l D A' l' : list elem), rd A l D A' l' ->
+    Forall (fun e => e_id e <> 0%N) A -> Forall (fun e => e_id e = 0%N) l ->
+    (exists H, A' = A ++ H) /\ (exists pre, l = pre ++ l') /\
+    Forall (fun e => e_id e <> 0%N) A' /\ Forall (fun e => e_id e = 0%N) l'.
+Proof. exact rd_front. Qed.
+Print Assumptions C09_queue_read_in_progress_order.
+
+Theorem C09_queue_read_in_progress_no_loss :
+  forall (A l D A' l' : list elem), rd A l D A' l' ->
+    (forall a, In a A -> In a A') /\
+    (forall v, In v l -> In v D \/ (exists v', rewritten v v' /\ In v' A') \/ In v l').
+Proof. exact rd_complete. Qed.
+Print Assumptions C09_queue_read_in_progress_no_loss.
+
+(* (c) for every operation in progress: in-flight entries in front before => in front after any part of
+   the operation's commands *)
+Theorem C09_queue_in_flight_first :
+  forall (s : rstore) (q : rq) (o : rqop) (E : list elem) (k' : nat),
+    qstore_ok (rq_key q) s -> lview (rq_key q) s = map BElem E -> fi E -> op_pre q E o ->
+    exists E', lexec_all (lview (rq_key q) s) (firstn k' (r_cmds (rq_step s q o))) = map BElem E' /\ fi E'.
+Proof. exact one_op_order. Qed.
+Print Assumptions C09_queue_in_flight_first.
+
+Theorem C09_queue_in_flight_first_means :
+  forall (l : list elem), fi l ->
+    exists a b, l = a ++ b /\ Forall (fun e => e_id e <> 0%N) a /\ Forall (fun e => e_id e = 0%N) b.
+Proof. exact fi_split. Qed.
+Print Assumptions C09_queue_in_flight_first_means.
+
+(* (b) run level, ANY prefix of ANY history: every reloaded element is, up to packet id and expiry, an
+   element supplied by an Add or a Replace of the history (or stored initially): nothing is invented *)
+Theorem C09_queue_cut_provenance :
+  forall (G : list elem) (ops : list rqop) (s : rstore) (q : rq) (k : nat),
+    qstore_ok (rq_key q) s -> Forall (prov G) (lview (rq_key q) s) -> incl (supplied ops) G ->
+    Forall (prov G) (lview (rq_key q) (exec_all s (firstn k (rq_journal s q ops)))).
+Proof. exact queue_cut_provenance. Qed.
+Print Assumptions C09_queue_cut_provenance.
+
+(* (b) run level, no duplication: one list slot per executed RPUSH at most; only Add issues RPUSH, once *)
+Theorem C09_queue_cut_length :
+  forall (ops : list rqop) (s : rstore) (q : rq) (k : nat),
+    qstore_ok (rq_key q) s ->
+    (length (lview (rq_key q) (exec_all s (firstn k (rq_journal s q ops)))) <=
+     length (lview (rq_key q) s) + length (filter is_rpush (firstn k (rq_journal s q ops))))%nat.
+Proof. exact queue_cut_length. Qed.
+Print Assumptions C09_queue_cut_length.
+
+Theorem C09_queue_only_add_pushes :
+  forall (s : rstore) (q : rq) (o : rqop),
+    match o with
+    | ROp (OAdd _ _) => (length (filter is_rpush (r_cmds (rq_step s q o))) <= 1)%nat
+    | _ => filter is_rpush (r_cmds (rq_step s q o)) = []
+    end.
+Proof. exact only_add_pushes. Qed.
+Print Assumptions C09_queue_only_add_pushes.
+
+(* non-vacuity: bound 2; the third Add drops the queued QoS 0 message (LREM e2, RPUSH e3), then Read hands out
+   e1 and e3 with packet ids 7 and 8 (two LSETs).  Tags, then packet ids, of the list reloaded after k commands *)
+Example C09_queue_example :
+  let q0 := rq_new 2 0 [99%N] in
+  let J := rq_journal [] q0 xq_hist in
+  J = snd (rq_run [] q0 xq_hist) /\ length J = 7%nat /\
+  map (fun k => map e_tag (elems_of (lview (rq_key q0) (exec_all [] (firstn k J))))) [3; 4; 5; 6; 7]%nat
+    = [[1; 2]; [1]; [1; 3]; [1; 3]; [1; 3]]%N /\
+  map (fun k => map e_id (elems_of (lview (rq_key q0) (exec_all [] (firstn k J))))) [5; 6; 7]%nat
+    = [[0; 0]; [7; 0]; [7; 8]]%N.
+Proof. exact queue_example. Qed.
+
+(* What the run level induction for (a) and (c) still needs: an invariant of (store, queue object) kept
+   by every COMPLETED operation - the list is in-flight entries (distinct non-zero packet ids) followed by
+   queued ones (packet id 0), 0 <= current <= number of in-flight entries with equality once drained,
+   len = length of the list, readCache = exactly the in-flight entries in front of the cursor with their
+   stored bytes - under the caller's discipline (Add of elements without packet id, Read with fresh
+   non-zero distinct packet ids after the replay).  With it, `op_pre` holds at every reachable state and
+   C09_queue_cut_decomposition + the per operation theorems above give (a) and (c) for any prefix. *)
